@@ -15,6 +15,7 @@ import json
 import numpy as np
 from feems.types_for_feems import TypePower
 
+from . import curve_common
 from .. import core, comps, plants
 from ..core import enc, dec, close, frac, call_with_oracle
 from .c06 import raw_eta, inv_value
@@ -25,7 +26,9 @@ from feems.types_for_feems import EmissionType
 
 THEOREMS = ["engine", "pilot", "zero", "nonneg", "constant_curve", "genset", "geared", "fuel_cell", "modules_linear", "modules",
             "geared_legacy_wrong_load", "geared_bidirectional", "geared_reverse_legacy_creates_energy", "cogas_point", "cogas_follows_split_curves", "legacy_share_off_curve", "legacy_cogas_gas_is_ratio", "running_hours_cons", "running_hours_idle", "running_hours_always"]
-DEPENDS_ON_MODULES = ["FeemsProofs.C06"]
+THEOREMS += curve_common.CURVE_THEOREMS["C07"]       # the interpolation rule of the curves (FeemsProofs/CurveProps.lean)
+EXTRA_PROOF_MODULES = curve_common.PROOF_MODULES
+DEPENDS_ON_MODULES = curve_common.DEPENDS + ["FeemsProofs.C06"]
 
 
 def curve_range(curve):
@@ -383,6 +386,7 @@ def run(ctx):
         ctx.case_done(signature=sig if ok and any(p != 0 for p in case["powers"]) else None, sample=case if ci in (ncorp, ncorp + 1) else None)
     ctx.extra["corpus_cases"] = ncorp
 
+    curve_common.run_curves(ctx, "bsfc", 60, 1500)
 
 def search(ctx):
     for i in range(2000):
@@ -394,7 +398,10 @@ def search(ctx):
 def replay(data):
     ctx = core.Ctx("C07", "quick", data.get("seed", 0))
     ctx.model_available = core.DRIVER.exists()
-    run_case(ctx, data["case"]["case"])
+    if data["case"]["case"].get("kind") == "curve":
+        curve_common.replay_curve(ctx, data["case"]["case"])
+    else:
+        run_case(ctx, data["case"]["case"])
     for f in ctx.failures:
         print(f"{f['kind']}: {f['tag']}: {f['what'][:300]}")
     if ctx._model:
